@@ -216,14 +216,32 @@ def run_F(chk):
                     names.add(n.targets[0].id)
                 if isinstance(n, ast.AugAssign) and isinstance(n.target, ast.Name) and any(isinstance(x, ast.Name) and x.id in names for x in ast.walk(n.value)):
                     names.add(n.target.id)
-            guard = [n for n in A.walk_local(f.node) if isinstance(n, ast.If) and isinstance(n.test, ast.Name) and n.test.id in names]
+                # control dependence: `if verdict: flag = True`
+                if isinstance(n, ast.If) and isinstance(n.test, ast.Name) and n.test.id in names and not n.orelse:
+                    for b_ in n.body:
+                        if isinstance(b_, ast.Assign) and isinstance(b_.targets[0], ast.Name) and isinstance(b_.value, ast.Constant) and b_.value.value is True:
+                            names.add(b_.targets[0].id)
+            guard = [n for n in A.walk_local(f.node) if isinstance(n, ast.If) and isinstance(n.test, ast.Name) and n.test.id in names
+                     and not (len(n.body) == 1 and isinstance(n.body[0], ast.Assign) and isinstance(n.body[0].value, ast.Constant))]
             ok = False
             for g in guard:
-                called = {A.call_name(x) for b_ in g.body for x in ast.walk(b_) if isinstance(x, ast.Call)}
+                # calls made in the guarded block, including those of private helpers of the same module it calls (two levels)
+                nodes = [x for b_ in g.body for x in ast.walk(b_)]
+                frontier = list(nodes)
+                for _lvl in range(2):
+                    nxt = []
+                    for x in frontier:
+                        if isinstance(x, ast.Call) and isinstance(x.func, ast.Name):
+                            tgt = prog.resolve(f.module, x.func.id)
+                            if hasattr(tgt, "node") and hasattr(tgt, "params") and tgt.module is f.module and tgt.name not in helpers:
+                                nxt += list(ast.walk(tgt.node))
+                    nodes += nxt
+                    frontier = nxt
+                called = {A.call_name(x) for x in nodes if isinstance(x, ast.Call)}
                 if all(h in called for h in helpers):
                     ok = True
                     if replaces:
-                        rep = [x for b_ in g.body for x in ast.walk(b_) if isinstance(x, ast.Call) and isinstance(x.func, ast.Attribute)
+                        rep = [x for x in nodes if isinstance(x, ast.Call) and isinstance(x.func, ast.Attribute)
                                and x.func.attr == "_replace" and any(k.arg == "hfs" for k in x.keywords)]
                         if not rep:
                             ok = False
